@@ -131,14 +131,27 @@ def mutants(args):
         i = args.index("--tier")
         tier = args[i + 1]
         args = args[:i] + args[i + 2:]
-    files = _mutant_files(args)
+    names = [a for i, a in enumerate(args) if not a.startswith("--") and (i == 0 or args[i - 1] != "--parallel")]
+    files = _mutant_files(names)
     if not files:
         print("no mutants selected")
         return 2
     missed = 0
     results = []
-    for name, props, patch in files:
-        r = run_mutant(name, props, patch, tier)
+    par = 1
+    if "--parallel" in args:
+        i = args.index("--parallel")
+        par = int(args[i + 1])
+    if par > 1:
+        from concurrent.futures import ThreadPoolExecutor
+
+        os.environ["VERIF_JOBS"] = str(max(2, 16 // par))
+        with ThreadPoolExecutor(par) as ex:
+            futs = [ex.submit(run_mutant, name, props, patch, tier) for name, props, patch in files]
+            done = [f.result() for f in futs]
+    else:
+        done = [run_mutant(name, props, patch, tier) for name, props, patch in files]
+    for (name, props, patch), r in zip(files, done):
         results.append(r)
         ok = bool(r.get("caught_by")) and all(":FAILED" not in x for x in r.get("replayed", [])) and r.get("replayed")
         print(f"[mutant] {name}: {'CAUGHT' if ok else 'MISSED'} by={r.get('caught_by')} replay={r.get('replayed')} exit={r.get('exit')} wall={r.get('wall')} {r.get('error','')}")
